@@ -39,6 +39,24 @@ def make_replay(prop, o, unit, repo, extra=None, unit_meta=None):
             confirmed = (p_.returncode == 1)
         except Exception as e:      # pragma: no cover
             rec['native_replay'] = {'error': str(e)}
+    if not confirmed and unit_meta and unit_meta.get('replay') == 'native':
+        # no replayable model (loop-invariant failure, undecided obligation): bounded native search over boundary-value
+        # inputs that satisfy the unit's preconditions, all ensures clauses evaluated natively on the real function
+        import subprocess
+        from .run import REPO
+        nrec = {'unit_key': unit_meta.get('unit_key'), 'contract_file': unit_meta.get('contract_file'), 'unit_line': unit_meta.get('unit_line'),
+                'clause_line': None, 'obligation': o['name'], 'inputs': {}, 'repo_root': REPO}
+        npath = path[:-5] + '.search.json'
+        json.dump(nrec, open(npath, 'w'), indent=1, default=str)
+        try:
+            p_ = subprocess.run(['/venv/bin/python', os.path.join(VERIF, 'nreplay', 'native.py'), npath, REPO, '--search'],
+                                capture_output=True, text=True, timeout=300)
+            rec['native_search'] = {'cmd': '/venv/bin/python nreplay/native.py %s %s --search' % (npath, REPO), 'exit': p_.returncode,
+                                    'label': 'bounded native search (boundary-value pools, at most 60000 candidates)',
+                                    'output': (p_.stdout + p_.stderr).strip().splitlines()[-12:]}
+            confirmed = (p_.returncode == 1)
+        except Exception as e:      # pragma: no cover
+            rec['native_search'] = {'error': str(e)}
     rec['failing_input_found'] = confirmed
     json.dump(rec, open(path, 'w'), indent=1, default=str)
     return path, confirmed
